@@ -133,11 +133,14 @@ def run(tier):
         if k not in seen:
             seen.add(k)
             uniq.append(c)
-    acc, rejected, leftover = accepted(uniq)
+    mism = []
+    acc, rejected, leftover = accepted(uniq, mism)
     log("[C06] %d candidates, %d accepted, %d rejected, %d unconsumed-attribute" % (len(uniq), len(acc), rejected, leftover))
     progs = [build("p%05d" % i, t, c[2], c[3], candidate_desc(*c), sig_of(c)) for i, (c, t) in enumerate(acc)]
+    out = common.Outcome(PID)
+    gen_cmp.report_mismatches(PID, mism, out)
     return e1.finish(
-        PID, tier, progs, t0,
+        PID, tier, progs, t0, outcome=out,
         rule="one Kani harness per program (shape x hash/eq/ord(/partial_*) placement x derived subset x entry); all field values of two operands symbolic; the derived "
              "Hash::hash is run against a recording Hasher and compared byte for byte with the reference feed; non-trivial = >= 2 fields or an attribute",
         bounds="shapes as C01; one attributed field at every position, or two attributes of different kinds on one field; recorder capacity 16 bytes (unwind 18); "
